@@ -293,6 +293,17 @@ func (x *Exec) appendOp(st *State, fr *Frame, cc *CallCtx) Val {
 		r.GoT = rt
 		return r
 	}
+	// decide "fits into the capacity" from the path condition where the solver can (make with a capacity hint
+	// followed by appends): a decided case needs no case split in every later read of the result
+	// (only for a slice this function made itself - st.Fresh - where an in-place append is the intended case;
+	// asking for every append of every path doubled the running time of C07)
+	if !isLit(inPlace, "true") && !isLit(inPlace, "false") && !isOptionSlice(rt) && st.Fresh[s.Ref.S] {
+		if !x.feasible(st, Not(inPlace)) {
+			inPlace = BoolT(true)
+		} else if !x.feasible(st, inPlace) {
+			inPlace = BoolT(false)
+		}
+	}
 	var fresh Term
 	if isLit(inPlace, "true") {
 		res.Ref, res.Off, res.Cap = s.Ref, s.Off, s.Cap
